@@ -340,7 +340,9 @@ class FullConsumerRun:
         elif a == "ProcDone":
             d = self.proc_d
             self.app({"a": "ProcDone", "x": e["x"], "w": [], "k": ""},
-                     (lambda: d.callback(None)) if e["x"] else (lambda: d.errback(failure.Failure(ValueError("processor failed")))))
+                     (lambda: d.callback(None)) if e["x"] == 1 else
+                     (lambda: d.errback(failure.Failure(defer.CancelledError()))) if e["x"] == 2 else
+                     (lambda: d.errback(failure.Failure(ValueError("processor failed")))))
         elif a == "Advance":
             self.clock.fire_next()
         else:
@@ -382,7 +384,7 @@ def random_run(cfg, seed, length):
                     cands.append((0.8, {"a": "Commit", "k": "c%d" % (ncommit + 1)}))
             cands.append((0.15, {"a": "Shutdown"}))
             if run.proc_d is not None and not run.proc_d.called:
-                cands.append((6, {"a": "ProcDone", "x": 1 if rng.random() < 0.9 else 0}))
+                cands.append((6, {"a": "ProcDone", "x": 1 if rng.random() < 0.9 else rng.choice([0, 0, 2])}))
             if run.clock.next_due() is not None:
                 cands.append((5, {"a": "Advance"}))
             for t in (1, 2, 3, 11, 12):
